@@ -284,9 +284,6 @@ func handleHRANDFIELD(params internal.HandlerFuncParams) ([]byte, error) {
 		if err != nil {
 			return nil, errors.New("count must be an integer")
 		}
-		if c == 0 {
-			return []byte("*0\r\n"), nil
-		}
 		count = c
 	}
 
@@ -306,6 +303,10 @@ func handleHRANDFIELD(params internal.HandlerFuncParams) ([]byte, error) {
 	hash, ok := params.GetValues(params.Context, []string{key})[key].(map[string]interface{})
 	if !ok {
 		return nil, fmt.Errorf("value at %s is not a hash", key)
+	}
+
+	if count == 0 {
+		return []byte("*0\r\n"), nil
 	}
 
 	// If count is the >= hash length, then return the entire hash
